@@ -89,8 +89,57 @@ def c10(tier, seed):
                      "at least two inputs, or one input whose Set call overlapped the combinator call in logical time")
 
 
+def c06(tier, seed):
+    steps = [
+        Step("fam_shared", "fib-asan", 100000, 3000000),
+        Step("fam_shared", "thr-tsan", 6000, 120000),
+        Step("fam_shared", "thr-asan", 0, 80000),
+        Step("fam_when", "fib-asan", 20000, 400000, cells="shared,mixed"),
+        Step("fam_wait", "fib-asan", 20000, 400000, cells="shared,mixed"),
+    ]
+    return run_steps("C06", tier, seed, steps,
+                     "at least two observer operations fired on the same SharedFuture (observers register before, "
+                     "during and after the fulfilling call)")
+
+
+def c11(tier, seed):
+    steps = [
+        Step("fam_wait", "fib-asan", 150000, 4000000),
+        Step("fam_core", "fib-asan", 30000, 600000, cells="wait-"),
+        Step("fam_wait", "thr-asan", 3000, 60000),
+        Step("fam_wait", "thr-tsan", 0, 60000),
+    ]
+    return run_steps("C11", tier, seed, steps,
+                     "a producer's Set call overlapped the wait call in logical time, or the wait returned with only "
+                     "some of the futures ready")
+
+
+def c16(tier, seed):
+    steps = [
+        Step("fam_wg", "fib-asan", 120000, 3000000),
+        Step("fam_wg", "thr-tsan", 3000, 80000),
+        Step("fam_wg", "thr-asan", 0, 60000),
+    ]
+    return run_steps("C16", tier, seed, steps,
+                     "at least one waiter registered before the count reached zero while Done calls / completions were "
+                     "still outstanding")
+
+
+def c18(tier, seed):
+    steps = [
+        Step("fam_stdlocks", "fib-asan", 200000, 4000000),
+    ]
+    return run_steps("C18", tier, seed, steps,
+                     "at least two fibers operate on the same lock / condition variable (every case); distinct = distinct "
+                     "interleaving signatures")
+
+
 PLANS = {
     "C01": c01,
+    "C06": c06,
+    "C11": c11,
+    "C16": c16,
+    "C18": c18,
     "C07": c07,
     "C08": c08,
     "C09": c09,
